@@ -8,6 +8,9 @@ import (
 	"os"
 	"strconv"
 
+	"github.com/omec-project/upf-epc/logger"
+	"go.uber.org/zap/zapcore"
+
 	"verifharness/internal/tr"
 )
 
@@ -41,8 +44,23 @@ func main() {
 		fmt.Fprintln(os.Stderr, "unknown property", os.Args[1])
 		os.Exit(2)
 	}
+	if os.Getenv("VERIF_LOG") == "" {
+		logger.PfcpLog = logger.PfcpLog.WithOptions() // keep handles; silence below Fatal
+		devnull, _ := os.OpenFile(os.DevNull, os.O_WRONLY, 0)
+		stdout := os.Stdout
+		os.Stdout = devnull
+		logger.SetLogLevel(zapcore.FatalLevel)
+		os.Stdout = stdout
+	}
 	seed, _ := strconv.ParseInt(os.Args[3], 10, 64)
 	c := &ctx{tier: os.Args[2], seed: seed, rng: rand.New(rand.NewSource(seed)), t: tr.New(os.Args[4]), extra: map[string]interface{}{}}
 	f(c)
 	c.t.Close(c.extra)
+}
+
+func hexs(s string) string {
+	if s == "" {
+		return "-"
+	}
+	return fmt.Sprintf("%x", s)
 }
